@@ -272,7 +272,7 @@ class ServerSim:
             close_loop(self.loop)
 
 
-def capture_factory(start_server_kwargs: dict, config):
+def capture_factory(start_server_kwargs: dict, config, bind_errors=0):
     """Run nauyaca's start_server on a loop whose create_server is stubbed, and return
     (protocol_factory, host, port, ssl_context) -- the production wiring without a socket."""
     from nauyaca.server import server as srv
@@ -285,6 +285,13 @@ def capture_factory(start_server_kwargs: dict, config):
     loop = asyncio.new_event_loop()
 
     async def fake_create_server(factory, host=None, port=None, **kw):
+        # bind_errors: the first n attempts to listen fail like a busy or unavailable address would (OSError); what a
+        # server that tries again ends up listening with is what gets captured
+        captured["attempts"] = captured.get("attempts", 0) + 1
+        if captured["attempts"] <= bind_errors:
+            import errno
+
+            raise OSError(errno.EADDRINUSE if captured["attempts"] % 2 else errno.EADDRNOTAVAIL, "injected: cannot bind")
         captured["factory"] = factory
         captured["host"] = host
         captured["port"] = port
@@ -325,6 +332,8 @@ def capture_factory(start_server_kwargs: dict, config):
         loop.close()
         asyncio.set_event_loop(None)
     if "factory" not in captured:
+        if bind_errors:
+            raise OSError("start_server gave up after the injected bind error(s)")
         raise RuntimeError("start_server did not reach create_server")
     return captured
 
